@@ -200,6 +200,56 @@ Proof.
   cbn [p_raw]. rewrite with_raw_open. reflexivity.
 Qed.
 
+(** the value TERMINATOR of the pending option: the occurrence is closed, the word is dropped, nothing is pushed *)
+Lemma loop_value_term c tok rest pos vaf st a :
+  no_sub c tok -> is_escape tok = false -> to_long tok = None -> to_short tok = None ->
+  find_arg c (a_id a) = Some a -> check_terminator a tok = true ->
+  parse_loop c (tok :: rest) (mkL (PSOpt (a_id a)) pos vaf false) st = parse_loop c rest (lsV pos vaf) st.
+Proof.
+  intros Hns He Hl Hs Hf Hct. cbn [parse_loop l_trailing l_pst l_vaf l_pos].
+  replace (if is_set s_sub_precedence c || false then possible_subcommand c tok vaf else None) with (@None bytes)
+    by (destruct (is_set s_sub_precedence c); cbn [orb]; [rewrite (Hns vaf)|]; reflexivity).
+  rewrite He, Hl, Hs. cbn [rbind l_trailing l_pst l_vaf l_pos]. rewrite Hf. cbn [expect rbind]. rewrite Hct. reflexivity.
+Qed.
+
+(** `--opt v1 .. vj ;` / `-o v1 .. vj ;`: [j] values below the maximum, then the terminator *)
+Lemma loop_long_term c tok f a r vs t rest pos vaf st :
+  no_sub c tok -> to_long tok = Some (f, true, None) -> get_long c f = Some a -> a_takes_value a = true ->
+  a_req_eq a = false -> find_arg c (a_id a) = Some a -> a_num a = Some r ->
+  N.of_nat (length vs) < vmax r -> Forall (value_tok c a) vs ->
+  no_sub c t -> plain_tok t -> check_terminator a t = true ->
+  parse_loop c (tok :: (vs ++ [t]) ++ rest) (lsV pos vaf) st =
+  (do st' <- sepm_fn c ILong a vs st; parse_loop c rest (lsV pos true) st').
+Proof.
+  intros Hns Hl Hg Htv Hre Hf Hn Hlen Hall Hnst [Het [Hlt Hst]] Hct.
+  rewrite (loop_long_open c tok f a ((vs ++ [t]) ++ rest) pos vaf st Hns Hl Hg Htv Hre).
+  unfold sepm_fn. destruct (resolve_pending c st) as [st1|e s1|x]; cbn [rbind]; try reflexivity.
+  rewrite <- app_assoc.
+  rewrite (loop_values_open c a r Hf Hn vs ([t] ++ rest) pos true _ (mkPending (a_id a) (Some ILong) [] None) Hall);
+    [|cbn [p_raw length]; lia|reflexivity|reflexivity].
+  cbn [p_raw]. rewrite with_raw_open. cbn [app].
+  apply (loop_value_term c t rest pos true _ a Hnst Het Hlt Hst Hf Hct).
+Qed.
+
+Lemma loop_short_term c tok r0 ch a r vs t rest pos vaf st :
+  no_sub c tok -> is_escape tok = false -> to_long tok = None -> to_short tok = Some r0 ->
+  sf_next r0 = Some (inl ch, []) -> get_short c ch = Some a -> a_takes_value a = true ->
+  a_req_eq a = false -> no_hyphen c -> find_arg c (a_id a) = Some a -> a_num a = Some r ->
+  N.of_nat (length vs) < vmax r -> Forall (value_tok c a) vs ->
+  no_sub c t -> plain_tok t -> check_terminator a t = true -> fs_skip st = 0 ->
+  parse_loop c (tok :: (vs ++ [t]) ++ rest) (lsV pos vaf) st =
+  (do st' <- sepm_fn c IShort a vs st; parse_loop c rest (lsV pos true) st').
+Proof.
+  intros Hns He Hl Hs Hnx Hg Htv Hre Hpos Hf Hn Hlen Hall Hnst [Het [Hlt Hst]] Hct Hsk.
+  rewrite (loop_short_open c tok r0 ch a ((vs ++ [t]) ++ rest) pos vaf st Hns He Hl Hs Hnx Hg Htv Hre Hpos Hsk).
+  unfold sepm_fn. destruct (resolve_pending c st) as [st1|e s1|x]; cbn [rbind]; try reflexivity.
+  rewrite <- app_assoc.
+  rewrite (loop_values_open c a r Hf Hn vs ([t] ++ rest) pos true _ (mkPending (a_id a) (Some IShort) [] None) Hall);
+    [|cbn [p_raw length]; lia|reflexivity|reflexivity].
+  cbn [p_raw]. rewrite with_raw_open. cbn [app].
+  apply (loop_value_term c t rest pos true _ a Hnst Het Hlt Hst Hf Hct).
+Qed.
+
 (** * The wider items *)
 Inductive item18 (c : cmd) : list bytes -> (ps -> res ps) -> Prop :=
 | i18_base toks F : item c toks F -> item18 c toks F
@@ -218,7 +268,20 @@ Inductive item18 (c : cmd) : list bytes -> (ps -> res ps) -> Prop :=
     sf_next r0 = Some (inl ch, []) -> get_short c ch = Some a -> a_takes_value a = true ->
     a_req_eq a = false -> no_hyphen c -> find_arg c (a_id a) = Some a -> a_num a = Some r ->
     vs <> [] -> N.of_nat (length vs) = vmax r -> Forall (value_tok c a) vs ->
-    item18 c (tok :: vs) (sepm_fn c IShort a vs).
+    item18 c (tok :: vs) (sepm_fn c IShort a vs)
+| i18_long_term tok f a r vs t :     (* `--opt v1 .. vj ;`: j below the maximum, `;` = the option's value terminator *)
+    no_sub c tok -> to_long tok = Some (f, true, None) -> get_long c f = Some a -> a_takes_value a = true ->
+    a_req_eq a = false -> find_arg c (a_id a) = Some a -> a_num a = Some r ->
+    N.of_nat (length vs) < vmax r -> Forall (value_tok c a) vs ->
+    no_sub c t -> plain_tok t -> check_terminator a t = true ->
+    item18 c (tok :: vs ++ [t]) (sepm_fn c ILong a vs)
+| i18_short_term tok r0 ch a r vs t : (* `-o v1 .. vj ;` *)
+    no_sub c tok -> is_escape tok = false -> to_long tok = None -> to_short tok = Some r0 ->
+    sf_next r0 = Some (inl ch, []) -> get_short c ch = Some a -> a_takes_value a = true ->
+    a_req_eq a = false -> no_hyphen c -> find_arg c (a_id a) = Some a -> a_num a = Some r ->
+    N.of_nat (length vs) < vmax r -> Forall (value_tok c a) vs ->
+    no_sub c t -> plain_tok t -> check_terminator a t = true ->
+    item18 c (tok :: vs ++ [t]) (sepm_fn c IShort a vs).
 
 Lemma item18_step c toks F : item18 c toks F -> forall rest pos vaf st, fs_skip st = 0 ->
   parse_loop c (toks ++ rest) (lsV pos vaf) st = (do st' <- F st; parse_loop c rest (lsV pos true) st').
@@ -228,6 +291,8 @@ Proof.
   - apply (loop_short_eq c tok r ch v a); assumption.
   - apply (loop_long_multi c tok f a r vs); assumption.
   - apply (loop_short_multi c tok r0 ch a r vs); assumption.
+  - apply (loop_long_term c tok f a r vs t); assumption.
+  - apply (loop_short_term c tok r0 ch a r vs t); assumption.
 Qed.
 
 Lemma item18_fs c toks F : item18 c toks F -> forall st st', F st = ROk st' -> fs_skip st' = fs_skip st /\ fs_at st' = fs_at st.
@@ -235,6 +300,8 @@ Proof.
   intros Hi st st' H. destruct Hi.
   - split; [eapply item_fs; eauto|eapply item_fsat; eauto].
   - split; [apply (react_all_fs _ _ _ _ H)|apply (react_all_fsat _ _ _ _ H)].
+  - eapply sepm_fn_fs; eauto.
+  - eapply sepm_fn_fs; eauto.
   - eapply sepm_fn_fs; eauto.
   - eapply sepm_fn_fs; eauto.
 Qed.
@@ -247,6 +314,8 @@ Proof.
   intros Hi st e s H. destruct Hi.
   - eapply item_err; eauto.
   - eapply react_all_err; eauto.
+  - eapply sepm_fn_err; eauto.
+  - eapply sepm_fn_err; eauto.
   - eapply sepm_fn_err; eauto.
   - eapply sepm_fn_err; eauto.
 Qed.
@@ -265,6 +334,17 @@ Proof.
   rewrite lex_is_escape, He, lex_to_long, Hl, lex_to_short, Hs.
   unfold EngineModel.parse_opt_value. rewrite is_value_terminator_check, Hct, Hn.
   destruct (opt_allows_hyphen (Opt a j) v); reflexivity.
+Qed.
+
+(** the value terminator of the pending option: back in [ValueDone] whatever the count (the repair of finding
+    C18-value-terminator) *)
+Lemma eng_term_step t a pi j evaf : no_sub pc t -> plain_tok t -> check_terminator a t = true ->
+  shadow_step t cur pi false (Opt a j) evaf = SNext cur pi false ValueDone evaf.
+Proof.
+  intros Hns [He [Hl Hs]] Hct. unfold shadow_step. cbn [negb]. rewrite (eng_no_sub pc cur t _ Hrel Hns).
+  rewrite lex_is_escape, He, lex_to_long, Hl, lex_to_short, Hs.
+  unfold EngineModel.parse_opt_value. rewrite is_value_terminator_check, Hct.
+  destruct (opt_allows_hyphen (Opt a j) t); reflexivity.
 Qed.
 
 Lemma eng_values_full a r pi evaf : a_num a = Some r -> forall vs j, vs <> [] -> Forall (value_tok pc a) vs ->
@@ -304,6 +384,13 @@ Proof.
     apply (eng_values_full a r pi true); try assumption. lia.
   - (* -o v1 .. vk *) cbn [shadow_run]. rewrite (eng_short_opt pc cur L tok r0 ch [] a pi evaf) by assumption. cbn [is_nil].
     apply (eng_values_full a r pi true); try assumption. lia.
+  - (* --opt v1 .. vj ; *) cbn [shadow_run]. rewrite (eng_long pc cur L tok f None a pi evaf) by assumption.
+    match goal with H : a_takes_value a = true |- _ => rewrite H end. cbn [is_none andb].
+    rewrite shadow_run_app, (eng_values_open a r pi true) by (try assumption; lia).
+    cbn [shadow_run]. rewrite (eng_term_step t a pi _ true) by assumption. reflexivity.
+  - (* -o v1 .. vj ; *) cbn [shadow_run]. rewrite (eng_short_opt pc cur L tok r0 ch [] a pi evaf) by assumption. cbn [is_nil].
+    rewrite shadow_run_app, (eng_values_open a r pi true) by (try assumption; lia).
+    cbn [shadow_run]. rewrite (eng_term_step t a pi _ true) by assumption. reflexivity.
 Qed.
 End EngineItems18.
 
@@ -329,6 +416,57 @@ Proof.
     cbn [p_raw]. rewrite with_raw_open. reflexivity.
 Qed.
 
+(** * The value terminator of a positional *)
+
+(** [parse_positional]'s number of values the positional may still take *)
+Definition eng_num_args (a : arg) : N :=
+  match a_get_action a with
+  | AAppend => usize_max
+  | _ => match a_num a with Some r => vmax r | None => 1 end
+  end.
+
+(** [tok] is the value terminator of the positional [a] at the counter ([ChainWide.takes_at] with the opposite answer
+    of [check_terminator]) *)
+Definition term_at (c : cmd) (pos : N) (a : arg) (tok : bytes) : Prop :=
+  pos_plain c /\ get_pos c pos = Some a /\ a_last a = false /\ a_tva a = false /\ check_terminator a tok = true.
+
+(** what the loop does with the terminator: the pending occurrence of another argument (or of a positional that does
+    not take multiple values) is flushed; the word itself is dropped *)
+Definition term_fn (c : cmd) (a : arg) (st : ps) : res ps :=
+  if negb (match pending_arg_id (mt st) with Some i => beq i (a_id a) | None => false end) || negb (a_multiple_values a)
+  then resolve_pending c st else ROk st.
+
+Lemma term_fn_fs c a st st' : term_fn c a st = ROk st' -> fs_skip st' = fs_skip st /\ fs_at st' = fs_at st.
+Proof.
+  unfold term_fn. destruct (_ || _).
+  - intros H. split; [exact (resolve_pending_fs c st st' H)|exact (resolve_pending_fsat c st st' H)].
+  - intros H. inversion H. split; reflexivity.
+Qed.
+
+Lemma term_fn_err c a st e s : term_fn c a st = RErr e s -> reaction_error c e.
+Proof.
+  unfold term_fn. destruct (_ || _); [|discriminate]. intros H. eapply resolve_pending_err; eauto.
+Qed.
+
+(** the loop on the terminator of the positional at the counter, between arguments or while that positional is being
+    filled: the counter moves on, back in [ValuesDone] *)
+Lemma loop_pos_term c pst tok a rest pos vaf st :
+  match pst with PSOpt _ => False | _ => True end ->
+  (if is_set s_sub_precedence c || match pst with PSValuesDone => true | _ => false end
+   then possible_subcommand c tok vaf else None) = None ->
+  plain_tok tok -> term_at c pos a tok ->
+  parse_loop c (tok :: rest) (mkL pst pos vaf false) st =
+  (do st' <- term_fn c a st; parse_loop c rest (lsV (pos + 1) true) st').
+Proof.
+  intros Hpst Hns [He [Hl Hs]] [[Hmiss Hlow] [Hg [Hlast [Htva Hct]]]].
+  cbn [parse_loop l_trailing l_pst l_vaf l_pos].
+  rewrite Hns, He, Hl, Hs. cbn [rbind l_trailing l_pst l_vaf l_pos].
+  unfold term_fn, lsV.
+  destruct pst as [|i|i]; [|contradiction|];
+    cbv zeta; rewrite Hlow, Hmiss; rewrite !andb_false_r; cbn [andb orb rbind]; rewrite Hg, Hlast, Htva, Hct; cbn [andb orb];
+    reflexivity.
+Qed.
+
 (** * [pitems18]: options ([item18]) and single-valued positionals; the indices are the parser's "an argument was
     seen" flag at the start and the positional counter before and after.  A positional value must not be read as a
     subcommand WHERE IT STANDS ([possible_subcommand c tok vaf = None]): on a level with
@@ -340,7 +478,17 @@ Inductive pitems18 (c : cmd) : bool -> N -> list bytes -> (ps -> res ps) -> N ->
 | p18_pos vaf pos tok a pre G pos' :
     possible_subcommand c tok vaf = None -> plain_tok tok -> takes_at c pos a tok -> a_is_multiple a = false ->
     pitems18 c true (pos + 1) pre G pos' ->
-    pitems18 c vaf pos (tok :: pre) (fun st => do st' <- sep_fn c IIndex a tok st; G st') pos'.
+    pitems18 c vaf pos (tok :: pre) (fun st => do st' <- sep_fn c IIndex a tok st; G st') pos'
+| p18_term vaf pos t a pre G pos' :   (* the terminator of the positional at the counter as the first word: it is skipped *)
+    possible_subcommand c t vaf = None -> plain_tok t -> term_at c pos a t ->
+    pitems18 c true (pos + 1) pre G pos' ->
+    pitems18 c vaf pos (t :: pre) (fun st => do st' <- term_fn c a st; G st') pos'
+| p18_multi_term vaf pos a v1 vs t pre G pos' :  (* `v1 .. vk ;`: values of a multi-valued positional, then its terminator *)
+    multi_vals c pos a v1 vs -> N.of_nat (length (v1 :: vs)) < eng_num_args a ->
+    (is_set s_sub_precedence c = true -> no_sub c t) -> plain_tok t -> term_at c pos a t ->
+    pitems18 c true (pos + 1) pre G pos' ->
+    pitems18 c vaf pos ((v1 :: vs) ++ t :: pre)
+             (fun st => do st' <- push_all c a (v1 :: vs) st; do st'' <- term_fn c a st'; G st'') pos'.
 
 Lemma pitems_pitems18 c pos pre F pos' : pitems c pos pre F pos' -> forall vaf, pitems18 c vaf pos pre F pos'.
 Proof.
@@ -353,19 +501,27 @@ Qed.
 Lemma pitems18_fs c vaf pos pre F pos' : pitems18 c vaf pos pre F pos' -> forall st st', F st = ROk st' ->
   fs_skip st' = fs_skip st /\ fs_at st' = fs_at st.
 Proof.
-  induction 1 as [vaf pos|vaf pos toks F pre G pos' Hi Hp IH|vaf pos tok a pre G pos' Hns Hpl Ht Hm Hp IH]; intros st st' H.
+  induction 1 as [vaf pos|vaf pos toks F pre G pos' Hi Hp IH|vaf pos tok a pre G pos' Hns Hpl Ht Hm Hp IH
+                   |vaf pos t a pre G pos' Hns Hpl Ht Hp IH|vaf pos a v1 vs t pre G pos' Hmv Hlen Hns Hpl Ht Hp IH]; intros st st' H.
   - inversion H. split; reflexivity.
   - destruct (F st) as [st1|e s1|x] eqn:E; cbn [rbind] in H; try discriminate.
     destruct (IH _ _ H) as [H1 H2]. destruct (item18_fs c toks F Hi _ _ E) as [H3 H4]. rewrite H1, H2. split; assumption.
   - destruct (sep_fn c IIndex a tok st) as [st1|e s1|x] eqn:E; cbn [rbind] in H; try discriminate.
     destruct (IH _ _ H) as [H1 H2]. destruct (sep_fn_fs _ _ _ _ _ _ E) as [H3 H4]. rewrite H1, H2. split; assumption.
+  - destruct (term_fn c a st) as [st1|e s1|x] eqn:E; cbn [rbind] in H; try discriminate.
+    destruct (IH _ _ H) as [H1 H2]. destruct (term_fn_fs _ _ _ _ E) as [H3 H4]. rewrite H1, H2. split; assumption.
+  - destruct (push_all c a (v1 :: vs) st) as [st1|e s1|x] eqn:E; cbn [rbind] in H; try discriminate.
+    destruct (term_fn c a st1) as [st2|e s2|x] eqn:E2; cbn [rbind] in H; try discriminate.
+    destruct (IH _ _ H) as [H1 H2]. destruct (term_fn_fs _ _ _ _ E2) as [H3 H4]. destruct (push_all_fs _ _ _ _ _ E) as [H5 H6].
+    rewrite H1, H2, H3, H4. split; assumption.
 Qed.
 
 Theorem loop_pitems18 c vaf pos pre F pos' : pitems18 c vaf pos pre F pos' -> forall rest st, fs_skip st = 0 ->
   parse_loop c (pre ++ rest) (lsV pos vaf) st =
   (do st' <- F st; parse_loop c rest (lsV pos' (vaf || negb (is_nil pre))) st').
 Proof.
-  induction 1 as [vaf pos|vaf pos toks F pre G pos' Hi Hp IH|vaf pos tok a pre G pos' Hns Hpl Ht Hm Hp IH]; intros rest st Hfs.
+  induction 1 as [vaf pos|vaf pos toks F pre G pos' Hi Hp IH|vaf pos tok a pre G pos' Hns Hpl Ht Hm Hp IH
+                   |vaf pos t a pre G pos' Hns Hpl Ht Hp IH|vaf pos a v1 vs t pre G pos' Hmv Hlen Hns Hpl Ht Hp IH]; intros rest st Hfs.
   - cbn [app rbind is_nil negb]. rewrite orb_false_r. reflexivity.
   - rewrite <- app_assoc, (item18_step c toks F Hi (pre ++ rest) pos vaf st Hfs).
     destruct (F st) as [st1|e s1|x] eqn:E; cbn [rbind]; try reflexivity.
@@ -379,6 +535,20 @@ Proof.
     destruct (sep_fn c IIndex a tok st) as [st1|e s1|x] eqn:E; cbn [rbind]; try reflexivity.
     destruct (sep_fn_fs _ _ _ _ _ _ E) as [H3 _].
     rewrite IH by (rewrite H3; exact Hfs). cbn [is_nil negb orb]. rewrite orb_true_r. reflexivity.
+  - cbn [app]. unfold lsV at 1.
+    rewrite (loop_pos_term c PSValuesDone t a (pre ++ rest) pos vaf st I); [| |exact Hpl|exact Ht].
+    2:{ rewrite orb_true_r. exact Hns. }
+    destruct (term_fn c a st) as [st1|e s1|x] eqn:E; cbn [rbind]; try reflexivity.
+    destruct (term_fn_fs _ _ _ _ E) as [H3 _].
+    rewrite IH by (rewrite H3; exact Hfs). cbn [is_nil negb orb]. rewrite orb_true_r. reflexivity.
+  - rewrite <- app_assoc. rewrite (loop_multi c pos a v1 vs Hmv ((t :: pre) ++ rest) vaf st).
+    destruct (push_all c a (v1 :: vs) st) as [st1|e s1|x] eqn:E; cbn [rbind]; try reflexivity.
+    destruct (push_all_fs _ _ _ _ _ E) as [H5 _]. cbn [app].
+    rewrite (loop_pos_term c (PSPos (a_id a)) t a (pre ++ rest) pos true st1 I); [| |exact Hpl|exact Ht].
+    2:{ rewrite orb_false_r. destruct (is_set s_sub_precedence c) eqn:Ep; [|reflexivity]. apply (Hns eq_refl). }
+    destruct (term_fn c a st1) as [st2|e s2|x] eqn:E2; cbn [rbind]; try reflexivity.
+    destruct (term_fn_fs _ _ _ _ E2) as [H3 _].
+    rewrite IH by (rewrite H3, H5; exact Hfs). cbn [is_nil negb orb]. rewrite orb_true_r. reflexivity.
 Qed.
 
 Lemma sep_fn_err c idn a v st e s : sep_fn c idn a v st = RErr e s -> reaction_error c e.
@@ -387,9 +557,29 @@ Proof.
   intros H. inversion H; subst. eapply resolve_pending_err; eauto.
 Qed.
 
+Lemma pos_push_err c a v st e s : pos_push c a v st = RErr e s -> reaction_error c e.
+Proof.
+  unfold pos_push.
+  destruct (negb _ || negb _).
+  - destruct (resolve_pending c st) as [st1|e1 s1|x] eqn:RP; cbn [rbind]; try discriminate.
+    + destruct (pending_values_push _ _ _ _ _); cbn [expect rbind]; discriminate.
+    + intros H. inversion H; subst. eapply resolve_pending_err; eauto.
+  - cbn [rbind]. destruct (pending_values_push _ _ _ _ _); cbn [expect rbind]; discriminate.
+Qed.
+
+Lemma push_all_err c a : forall vs st e s, push_all c a vs st = RErr e s -> reaction_error c e.
+Proof.
+  induction vs as [|v t IH]; intros st e s H; cbn [push_all] in H; [discriminate|].
+  destruct (pos_push c a v st) as [st1|e1 s1|x] eqn:E; cbn [rbind] in H.
+  - eapply IH; eauto.
+  - inversion H; subst. eapply pos_push_err; eauto.
+  - discriminate.
+Qed.
+
 Lemma pitems18_err c vaf pos pre F pos' : pitems18 c vaf pos pre F pos' -> forall st e s, F st = RErr e s -> reaction_error c e.
 Proof.
-  induction 1 as [vaf pos|vaf pos toks F pre G pos' Hi Hp IH|vaf pos tok a pre G pos' Hns Hpl Ht Hm Hp IH]; intros st e s H.
+  induction 1 as [vaf pos|vaf pos toks F pre G pos' Hi Hp IH|vaf pos tok a pre G pos' Hns Hpl Ht Hm Hp IH
+                   |vaf pos t a pre G pos' Hns Hpl Ht Hp IH|vaf pos a v1 vs t pre G pos' Hmv Hlen Hns Hpl Ht Hp IH]; intros st e s H.
   - discriminate.
   - destruct (F st) as [st1|e1 s1|x] eqn:E; cbn [rbind] in H.
     + eapply IH; eauto.
@@ -398,6 +588,17 @@ Proof.
   - destruct (sep_fn c IIndex a tok st) as [st1|e1 s1|x] eqn:E; cbn [rbind] in H.
     + eapply IH; eauto.
     + inversion H; subst. eapply sep_fn_err; eauto.
+    + discriminate.
+  - destruct (term_fn c a st) as [st1|e1 s1|x] eqn:E; cbn [rbind] in H.
+    + eapply IH; eauto.
+    + inversion H; subst. eapply term_fn_err; eauto.
+    + discriminate.
+  - destruct (push_all c a (v1 :: vs) st) as [st1|e1 s1|x] eqn:E; cbn [rbind] in H.
+    + destruct (term_fn c a st1) as [st2|e2 s2|x] eqn:E2; cbn [rbind] in H.
+      * eapply IH; eauto.
+      * inversion H; subst. eapply term_fn_err; eauto.
+      * discriminate.
+    + inversion H; subst. eapply push_all_err; eauto.
     + discriminate.
 Qed.
 
